@@ -65,13 +65,28 @@ def replay_case(case, tag, rng, tier):
             out["skipped"]["construction-raised"] = out["skipped"].get("construction-raised", 0) + 1
             continue
         via = "ctor"
-        if k != "Vector" and rng.random() < 0.2:
+        r = rng.random()
+        if k != "Vector" and r < 0.2:
+            common.warm_up(b)                                 # hashed / compared before it is moved
             v = vec([1, -2, 3], pose, "float")
             _, e1 = call(b.move, v)
             _, e2 = call(b.move, -v)
             if e1 is not None or e2 is not None:
                 continue
             via = "there_and_back"
+        elif k != "Vector" and r < 0.4:
+            # built displaced, hashed, then moved in place to where it belongs
+            from geom import Pose, Vector as V_
+            d = (rng.randint(-2, 2), rng.randint(-2, 2), rng.choice((-1, 1)))
+            shifted = Pose(s=pose.s, k=pose.k, M=pose.M, t=tuple(pose.t[i] - d[i] for i in range(3)), norm=pose.norm)
+            b, eb = call(build_rep, rb, shifted, rng)
+            if eb is not None:
+                continue
+            common.warm_up(b)
+            _, e1 = call(b.move, V_(*[float(c) for c in d]))
+            if e1 is not None:
+                continue
+            via = "moved_into_place"
         for name, f, want in (("eq", lambda: a == b, same), ("eq_sym", lambda: b == a, same), ("ne", lambda: a != b, not same),
                               ("refl", lambda: a == a, True)):
             val, exc = call(f)
